@@ -1,7 +1,7 @@
 """C14 - subset and union retain exactly the referenced data and invert each other (structural clauses)."""
 from __future__ import annotations
 
-from . import scopes, lib_schema, lib_module, lib_py, lib_guards, lib_gate, lib_err, lib_mem, lib_kind
+from . import scopes, lib_schema, lib_module, lib_py, lib_guards, lib_gate, lib_err, lib_mem, lib_kind, lib_kind4
 
 LEVEL = "other"
 EXPLANATION = ("Entry integrity gates on both operands, exact node-list / node-mapping guards, option plumbing with polarity and "
@@ -30,6 +30,7 @@ def run(ctx):
     lib_py.kw_forward(ctx, py, mods=("trees", "tables"), only=ps)
     lib_py.unused_params(ctx, py, mods=("trees", "tables"), only=ps)
     lib_kind.py_lints(ctx, py, mods=("trees", "tables"), only=ps)
+    lib_kind4.full_sort(ctx, py)
     lib_py.ll_positional(ctx, py, P, only=ps)
     lib_py.gate_before_return(ctx, py, ["subset", "union"])
     # union post-processing and flag consumption
